@@ -2,8 +2,8 @@
     Only statements, each closed by [exact] (or a two-line proof), with [Print Assumptions].
     Model: [Account.Model] (threads = doIssue / newACMEClientWithAccount calls of any number of
     instances; CA index [c]; counters fsaves / crashes / deletes / resets are ghost). *)
-From CM Require Import Lib.Str Lib.Wire Gen.Consts Account.Model Account.Check Account.Proofs
-  Account.Recreate Account.Url Account.Examples Account.Monitor.
+From CM Require Import Lib.Str Lib.Wire Gen.Consts Account.Model Account.KeyPem Account.Check Account.Proofs
+  Account.Recreate Account.Url Account.Examples Account.Monitor Account.KeyPemProofs.
 From Coq Require Import Arith.
 Open Scope nat_scope.
 
@@ -132,6 +132,68 @@ Example C20_ex_monitor :
   seq_hist init ex_history.
 Proof.
   destruct ex_history_agrees as (H1 & H2 & _). split; [exact (model_agrees_hist _ _ H1)|exact H2].
+Qed.
+
+(** ---- With a configured account key ([AccountKeyPEM]; model [Account.KeyPem]: any number of
+    GetAccount calls with and without e-mail, no lock, look-up at the CA instead of registration,
+    faults on every operation, crashes; [FMine] = the configured key / its account's registration).
+
+    Clause 3: every call that succeeds returns the account of the configured key (storage did not
+    hold a foreign registration to begin with). Nothing is registered in this mode: the model has
+    no such transition, and the correspondence reports any newAccount that is not a look-up. *)
+Theorem C20_keypem_success_is_configured_account : forall r0 k0 known ls s t r k,
+  r0 <> FOther -> krun (kinit r0 k0 known) ls = Some s ->
+  k_thr s t = KDone (Some (r, k)) -> r = FMine /\ k = FMine.
+Proof. exact kp_success_is_configured_account. Qed.
+Print Assumptions C20_keypem_success_is_configured_account.
+
+(** Clause 4: a stored account is never replaced by a different one (any state, any continuation) *)
+Theorem C20_keypem_stored_account_never_replaced : forall s ls s',
+  k_key s = FMine -> k_reg s <> FOther -> krun s ls = Some s' ->
+  k_key s' = FMine /\ k_reg s' <> FOther.
+Proof. exact kp_stored_account_never_replaced. Qed.
+Print Assumptions C20_keypem_stored_account_never_replaced.
+
+(** Clause 2 is false in this mode: a save over the stored account that fails at the key file
+    is rolled back by deleting the registration that was there before (storeTx) — the key is
+    left without its registration. *)
+Theorem C20_keypem_persisted_together_refuted :
+  exists ls s, krun (kinit FMine FMine true) ls = Some s /\
+               k_key s = FMine /\ k_reg s = FNone /\ k_thr s 0 = KDone None.
+Proof. exact kp_persisted_together_refuted. Qed.
+Print Assumptions C20_keypem_persisted_together_refuted.
+
+(** ... but (since ec5c5dd; before it every later call with an e-mail failed) the account is not
+    lost: from any state without a foreign registration, with other calls stopped anywhere, the
+    next call that runs alone and without faults returns the configured account and leaves it
+    completely stored — "every later operation reuses that account". *)
+Theorem C20_keypem_next_call_recovers : forall s t e,
+  k_thr s t = KIdle -> k_reg s <> FOther -> k_known s = true ->
+  exists n s', krun s (KStart t e :: repeat (KOp t false) n) = Some s' /\
+               k_thr s' t = KDone (Some (FMine, FMine)) /\ k_reg s' = FMine /\ k_key s' = FMine.
+Proof. exact kp_next_call_recovers. Qed.
+Print Assumptions C20_keypem_next_call_recovers.
+
+(** the single-call summary of the kind-3 cases is the LTS run of one call on a quiet storage *)
+Theorem C20_keypem_outcome_is_solo_run : forall r k known e t,
+  let s' := ksolo (kset (kinit r k known) t (kstart_pc e)) t 7 in
+  let '(ok, _, saved) := keypem_outcome (fval_eqb k FMine) (negb (fval_eqb r FNone)) known in
+  (exists res, k_thr s' t = KDone res /\ ok = match res with Some _ => true | None => false end) /\
+  saved = (fval_eqb (k_key s') FMine && negb (fval_eqb (k_reg s') FNone))%bool.
+Proof. exact keypem_outcome_is_solo_run. Qed.
+Print Assumptions C20_keypem_outcome_is_solo_run.
+
+(** the monitor of the account-key histories ([Check.kspec], five clauses, evaluated on the
+    implementation's observations) holds on every observation the model can produce *)
+Theorem C20_keypem_monitor_sound : forall c, kmodel_agrees c = true -> kspec c = true.
+Proof. exact kspec_sound. Qed.
+Print Assumptions C20_keypem_monitor_sound.
+
+Example C20_ex_keypem_recovery : exists s,
+  (exists ls, krun (kinit FMine FMine true) ls = Some s) /\
+  k_thr s 1 = KIdle /\ k_reg s = FNone /\ k_key s = FMine /\ k_known s = true.
+Proof.
+  eexists. split; [exists kp_run_rollback; vm_compute; reflexivity|]. repeat split.
 Qed.
 
 (** non-vacuity: the hypotheses above are met by non-trivial reachable states *)
